@@ -110,6 +110,8 @@ pub mod kv_database;
 pub mod single_map;
 pub mod storage_engine;
 pub mod tiny_lfu;
+#[cfg(feature = "verif")]
+pub mod verif;
 pub mod write_batch;
 pub mod write_manager;
 
